@@ -273,7 +273,7 @@ def attribute(v, T, bound):
       incremental_only                 the failing step re-solves an object that already had a result, and the same
                                        problem solved from scratch by a fresh object is judged correct
       vanishes_with_patch = X          the failure disappears when candidate fix X (corpus/C07/patch-*.diff) is applied
-      terminates_with_pivot_row_first  a timeout that does not occur under PIVOT_ROW_STRATEGY_FIRST
+      terminates_under_another_strategy_setting   a timeout that does not occur under another CUTTING x PIVOT setting
       big_parameter / answer_not_affine_in_big_parameter   (judge) the exact answer is not affine in the big parameter"""
     info = {"kind": v["kind"], "vanishes_with_patch": "none"}
     pre = ops_before_step(v["ops"], v["step"])
@@ -294,8 +294,17 @@ def attribute(v, T, bound):
         cur = fv; info["fresh_kind"] = fv["kind"]
     fresh_ops = fresh_case(cur["snap"]) if cur is not v else v["ops"]
     if cur["kind"] == "timeout":
-        pv = evaluate(T.exe, T.judge, [("piv", fresh_case(cur["snap"], pivot=3))], bound)[0]
-        info["terminates_with_pivot_row_first"] = (pv["kind"] != "timeout") and cur["snap"]["ctl"][1] == 4
+        # does any other CUTTING_STRATEGY x PIVOT_ROW_STRATEGY setting terminate on the same problem?
+        other = False
+        for cut in (0, 1, 2):
+            for piv in (3, 4):
+                if [cut, piv] == list(cur["snap"]["ctl"]) or other:
+                    continue
+                sn = dict(cur["snap"]); sn["ctl"] = [cut, piv]
+                pv = evaluate(T.exe, T.judge, [("alt", fresh_case(sn))], bound)[0]
+                if pv["kind"] != "timeout":
+                    other = True
+        info["terminates_under_another_strategy_setting"] = other
     for name in ("row_sign", "fnode", "both"):
         exe = T.variant(name)
         if exe is None:
@@ -439,8 +448,8 @@ def run(chk):
         process(chk, T, vs, bound, stats)
         chk.log("corpus: %d cases, %d failing steps" % (len(cases), stats["failing_steps"]))
     # ---- generated histories ------------------------------------------------------------------
-    total = 900 if chk.quick else 14000
-    batch = 450 if chk.quick else 1000
+    total = 2000 if chk.quick else 14000
+    batch = 500 if chk.quick else 1000
     budget_s = 150 if chk.quick else 1500
     done = 0; b = 0
     while done < total and time.time() - chk.t0 < budget_s and len(chk.violations) < MAX_VIOLATIONS:
